@@ -78,6 +78,39 @@ Theorem kernel_conditions_are_history_level : forall p init script sh key extra,
 Proof. exact kernel_history_lemma. Qed.
 Print Assumptions kernel_conditions_are_history_level.
 
+(* REFUSED TRANSITIONS (entry guard of the target frame closed).  A transition whose needs all
+   hold but whose target is refused is skipped without any effect ... *)
+Theorem refused_transition_is_skipped : forall p s fi t r,
+  needs_true s fi t = true -> guard_ok s (frame_of p (t_far t)) = false ->
+  pick p s fi (t :: r) = pick p s fi r.
+Proof. exact refused_is_skipped_lemma. Qed.
+Print Assumptions refused_transition_is_skipped.
+
+(* ... so a tick in which no transition of the active frame is taken (every one is either not
+   satisfied or refused) leaves EVERY mark -- stamp, used and data snapshot -- exactly as it was ... *)
+Theorem refused_tick_keeps_marks : forall p s pre post sh key,
+  pick p (apply_all s (map KWrite pre)) (k_active s) (f_trans (frame_of p (k_active s))) = None ->
+  marks_of (view (fst (tick p false s pre post)) sh key) = marks_of (view s sh key).
+Proof. exact refused_tick_keeps_marks_lemma. Qed.
+Print Assumptions refused_tick_keeps_marks.
+
+(* ... and an update that was pending when the transition was refused is still pending at the next
+   attempt (after the rest of the tick, the time advance and any further external writes): the
+   transition fires as soon as the guard opens. *)
+Theorem pending_update_survives_refusal : forall p s pre post sh key extra,
+  pick p (apply_all s (map KWrite pre)) (k_active s) (f_trans (frame_of p (k_active s))) = None ->
+  stamp_wf (view s sh key) ->
+  need_eval (apply_all s (map KWrite pre)) (KUpd, sh, key) = true ->
+  let s' := fst (tick p false s pre post) in
+  need_eval (apply_all (with_now s' (S (k_now s'))) (map KWrite extra)) (KUpd, sh, key) = true.
+Proof. exact pending_update_survives_lemma. Qed.
+Print Assumptions pending_update_survives_refusal.
+
+(* share stamps are never in the future on any history (the hypothesis stamp_wf above) *)
+Theorem stamps_well_formed : forall d h, stamp_wf (run d h).
+Proof. exact run_stamp_wf. Qed.
+Print Assumptions stamps_well_formed.
+
 (* ---- non-vacuity -------------------------------------------------------------------- *)
 (* F0: go F1 if x is updated in frame ; F1: go F0 if x is updated by m.  External write after
    the framer in tick 0 (same tick as the entry reset: counts) -> taken in tick 1; the write
@@ -86,8 +119,8 @@ Print Assumptions kernel_conditions_are_history_level.
 Example kernel_example :
   let n0 := {| n_kind := KUpd; n_share := 1; n_in := Some None; n_by := None |} in
   let n1 := {| n_kind := KUpd; n_share := 1; n_in := None; n_by := Some 7%Z |} in
-  let p := [ {| f_enter := []; f_recur := []; f_exit := []; f_trans := [ {| t_far := 1; t_needs := [n0] |} ] |};
-             {| f_enter := []; f_recur := []; f_exit := []; f_trans := [ {| t_far := 0; t_needs := [n1] |} ] |} ] in
+  let p := [ {| f_guard := None; f_enter := []; f_recur := []; f_exit := []; f_trans := [ {| t_far := 1; t_needs := [n0] |} ] |};
+             {| f_guard := None; f_enter := []; f_recur := []; f_exit := []; f_trans := [ {| t_far := 0; t_needs := [n1] |} ] |} ] in
   run_prog p [(1%Z, [(0%Z, VInt 0)])]
     [([], [(1%Z, 0%Z, VInt 5)]); ([], [(1%Z, 0%Z, VInt 5)]); ([], []); ([], []); ([], [])]
   = [0; 1; 0; 0; 0].
@@ -106,3 +139,15 @@ Example changed_example :
   need_change (run [(0%Z, VInt 1)] [EnterMark KChg; Write [(3%Z, VInt 1)]]) = true /\    (* field added *)
   need_change (run [(0%Z, VInt 1)] [Write [(0%Z, VInt 2)]]) = true.                      (* no snapshot yet *)
 Proof. vm_compute. repeat split; reflexivity. Qed.
+
+(* F0: go F1 if x is updated ; F1 guarded by  gate >= 1.  x is written once (after tick 0); the gate
+   opens after tick 3: refused at ticks 1..3, the update is still pending, taken at tick 4. *)
+Example refused_then_taken :
+  let n0 := {| n_kind := KUpd; n_share := 1; n_in := None; n_by := None |} in
+  let p := [ {| f_guard := None; f_enter := []; f_recur := []; f_exit := [];
+                f_trans := [ {| t_far := 1; t_needs := [n0] |} ] |};
+             {| f_guard := Some (3%Z, 3%Z); f_enter := []; f_recur := []; f_exit := []; f_trans := [] |} ] in
+  run_prog p [(1%Z, [(0%Z, VInt 0)]); (3%Z, [(3%Z, VInt 0)])]
+    [([], [(1%Z, 0%Z, VInt 5)]); ([], []); ([], []); ([], [(3%Z, 3%Z, VInt 1)]); ([], []); ([], [])]
+  = [0; 0; 0; 0; 1; 1].
+Proof. vm_compute. reflexivity. Qed.
